@@ -4,6 +4,7 @@ package main
 
 import (
 	"context"
+	"runtime"
 	"errors"
 	"fmt"
 	"net"
@@ -30,11 +31,96 @@ func runDisp(t []string) string {
 		if it == 0 {
 			last = obs
 		}
-		if obs != last || it == rep-1 {
+		if obs != last {
 			return obs
 		}
 	}
+	// many more rounds with resident closers released by an epoch counter: the callers enter Close
+	// within nanoseconds of each other, which is what a few-instruction window in Close needs
+	if n >= 2 && h >= 1 {
+		if bad := dispStress(n, h, mask, 40*rep); bad != "" {
+			return bad
+		}
+	}
 	return last
+}
+
+// dispStress: n resident goroutines; every round a fresh Dispose with h counting handlers is
+// published and all of them call Close at once. Returns the observation of the first round in
+// which a handler did not run exactly once (in dispOnce's format), "" if none.
+func dispStress(n, h, mask, rounds int) string {
+	type round struct {
+		d      *dispose.Dispose
+		counts []atomic.Int32
+	}
+	var cur atomic.Pointer[round]
+	var epoch, finished atomic.Int64
+	var stop atomic.Bool
+	var wg sync.WaitGroup
+	for w := 0; w < n; w++ {
+		wg.Add(1)
+		go func() {
+			defer wg.Done()
+			seen := int64(0)
+			for spins := 0; ; spins++ {
+				if stop.Load() {
+					return
+				}
+				if e := epoch.Load(); e != seen {
+					seen = e
+					cur.Load().d.Close()
+					finished.Add(1)
+					spins = 0
+					continue
+				}
+				if spins&1023 == 1023 {
+					runtime.Gosched()
+				}
+			}
+		}()
+	}
+	defer func() { stop.Store(true); wg.Wait() }()
+	failing := 0
+	for i := 0; i < h; i++ {
+		if mask>>i&1 == 1 {
+			failing++
+		}
+	}
+	deadline := time.Now().Add(patient())
+	for r := 0; r < rounds; r++ {
+		rd := &round{d: dispose.NewDispose(context.Background(), nil), counts: make([]atomic.Int32, h)}
+		for i := 0; i < h; i++ {
+			i := i
+			rd.d.AddCleanHandler(func() error {
+				rd.counts[i].Add(1)
+				if mask>>i&1 == 1 {
+					return errors.New("handler failed")
+				}
+				return nil
+			})
+		}
+		cur.Store(rd)
+		finished.Store(0)
+		epoch.Add(1)
+		for spins := 0; finished.Load() < int64(n); spins++ {
+			if spins&1023 == 1023 {
+				runtime.Gosched()
+				if time.Now().After(deadline) {
+					return "timeout: a closer did not return"
+				}
+			}
+		}
+		for i := 0; i < h; i++ {
+			if rd.counts[i].Load() != 1 {
+				cs := make([]string, h)
+				for j := range cs {
+					cs[j] = itoa(int(rd.counts[j].Load()))
+				}
+				return fmt.Sprintf("h %s res %d closed 1 ctx 1", strings.Join(cs, " "), failing)
+			}
+		}
+	}
+	return ""
 }
 
 func dispOnce(n, h, mask int) string {
